@@ -48,7 +48,7 @@ Reversing(c) == c \in {"rfind", "rfold", "rposition"}
 (* item type after each adapter *)
 TyAfter(ty, a) == CASE a.k = "enumerate" -> P(U, ty)
                     [] a.k = "zip" -> P(ty, U)
-                    [] a.k \in {"map", "filter_map", "flat_map", "flatten"} -> U
+                    [] a.k \in {"map", "map_s", "filter_map", "flat_map", "flatten"} -> U
                     [] OTHER -> ty
 RECURSIVE TyAt(_, _, _)
 TyAt(ty, chain, q) == IF q = 0 THEN ty ELSE TyAfter(TyAt(ty, chain, q - 1), chain[q])
@@ -58,7 +58,7 @@ TyEnd(chain) == TyAt(U, chain, Len(chain))
 (* std's typing judgment: DoubleEnded / ExactSize capabilities after each adapter *)
 Cap(de, es) == [de |-> de, es |-> es]
 CapAfter(c, a) ==
-    CASE a.k \in {"map", "rev"} -> c
+    CASE a.k \in {"map", "map_s", "rev"} -> c
       [] a.k \in {"filter", "filter_map", "flat_map", "flatten"} -> Cap(c.de, FALSE)
       [] a.k \in {"enumerate", "take", "skip", "zip"} -> Cap(c.de /\ c.es, c.es)
       [] a.k \in {"take_while", "skip_while"} -> Cap(FALSE, FALSE)
@@ -101,6 +101,9 @@ StdStep(ty, s, a, revLater) ==
       \* ranges produced by that map are the only iterable items of the closure library
       [] a.k = "flatten"    -> FlatMapSeq(ty, s)
       [] a.k = "map"        -> [q \in 1..Len(s) |-> Key(ty, s[q]) + a.n]
+      \* a closure with state: `|x| { cnt += 1; key * 10 + cnt }` - std calls it once per element in iteration order
+      \* (so a reversing method later numbers from the back, exactly as for enumerate)
+      [] a.k = "map_s"      -> [q \in 1..Len(s) |-> Key(ty, s[q]) * 10 + (IF revLater THEN Len(s) - q + 1 ELSE q)]
       [] a.k = "rev"        -> ReverseSeq(s)
       [] a.k = "skip"       -> SubSeq(s, a.n + 1, Len(s))
       [] a.k = "skip_while" -> SkipWhileSeq(ty, s)
@@ -179,6 +182,7 @@ Pipe(chain, cons, q, ty, item, ctr) ==
     ELSE LET a == chain[q] kk == Key(ty, item) nt == TyAfter(ty, a) IN
     CASE a.k = "rev" -> Pipe(chain, cons, q + 1, nt, item, ctr)
       [] a.k = "map" -> Pipe(chain, cons, q + 1, nt, kk + a.n, ctr)
+      [] a.k = "map_s" -> Pipe(chain, cons, q + 1, nt, kk * 10 + ctr[q] + 1, [ctr EXCEPT ![q] = ctr[q] + 1])
       [] a.k = "filter" -> IF Even(kk) THEN Pipe(chain, cons, q + 1, nt, item, ctr)
                            ELSE [ctr |-> ctr, outs |-> <<>>, brk |-> FALSE]                       \* continue
       [] a.k = "filter_map" -> IF IsSome(OptThird(kk)) THEN Pipe(chain, cons, q + 1, nt, kk, ctr)
